@@ -114,3 +114,41 @@ func init() {
 		}
 	}
 }
+
+func init() {
+	debugHooks["traces"] = func(c *Ctx, arg string) {
+		ts := c.stepTraces(arg)
+		fmt.Printf("%s: %d traces, %d steps, undecided=%v\n", arg, len(ts.traces), ts.steps, ts.undecided)
+		seen := map[string]int{}
+		for _, t := range ts.traces {
+			seen[traceString(notifications(t))]++
+		}
+		var keys []string
+		for k := range seen {
+			keys = append(keys, k)
+		}
+		sort.Strings(keys)
+		for _, k := range keys {
+			fmt.Printf("%5d  %s\n", seen[k], k)
+		}
+	}
+}
+
+func init() {
+	debugHooks["tracefull"] = func(c *Ctx, arg string) {
+		parts := strings.SplitN(arg, ",", 2)
+		ts := c.stepTraces(parts[0])
+		n := 0
+		for _, t := range ts.traces {
+			ns := traceString(notifications(t))
+			if strings.HasSuffix(ns, parts[1]) {
+				fmt.Println(traceString(t))
+				fmt.Println()
+				n++
+				if n >= 3 {
+					return
+				}
+			}
+		}
+	}
+}
